@@ -351,16 +351,81 @@ BUILD_FORMS = ['floats', 'Angle', 'FrozenAngle']
 MAT_KINDS = ['Matrix', 'FrozenMatrix']
 
 
+# Values that parse_vec_str() documents as "unparsable or an invalid type" (-> the fall-back arguments are used).
+BAD_ANGLE_TEXTS = ['', '   ', 'a b c', '1 2', '1 2 3 4', '1 2 x', '(1 2', '1,2,3', None, 7, [1.0, 2.0, 3.0]]
+
+
 def build_strategy(tier):
     return st.fixed_dictionaries({
         'a': angle_triple(), 'form': st.sampled_from(BUILD_FORMS), 'cls': st.sampled_from(MAT_KINDS),
+        'fb': angle_triple(), 'sv': st.integers(0, 329),
     })
 
 
 def build_enumerate(tier):
     step = 45 if tier == 'quick' else 15
     for n, a in enumerate(grid_triples(step)):
-        yield {'a': a, 'form': BUILD_FORMS[n % 3], 'cls': MAT_KINDS[(n // 3) % 2]}
+        yield {'a': a, 'form': BUILD_FORMS[n % 3], 'cls': MAT_KINDS[(n // 3) % 2], 'fb': [a[2], a[0] + 15.0, a[1] - 30.0], 'sv': n % 330}
+
+
+def angle_text(a, sv):
+    """Harness-side text of a triple: repr() of a float is exact and float() reads it back; bracket / spacing variants."""
+    sep = [' ', '  ', '\t', ' \t '][(sv // 5) % 4]
+    text = sep.join(repr(float(c)) for c in a)
+    br = ['', '()', '[]', '{}', '<>'][sv % 5]
+    if br:
+        text = br[0] + text + br[1]
+    if (sv // 20) % 2:
+        text = '  ' + text + ' \n'
+    return text
+
+
+def check_string_ctors(desc, ctx, cls):
+    """The string constructors of rotations build the rotation of the numbers they are given: from_angstr() of a
+    parsable text (fall-backs ignored), of an unparsable value (fall-backs used, in pitch/yaw/roll order), Angle
+    pass-through, and Angle.from_str()/FrozenAngle.from_str() with the same inputs."""
+    import srctools.math as sm
+    a, fb, sv = desc['a'], desc.get('fb'), desc.get('sv')
+    if fb is None:
+        return
+    text = angle_text(a, sv)
+    bad = BAD_ANGLE_TEXTS[sv % len(BAD_ANGLE_TEXTS)]
+    ctx.label(f'str:bad:{bad!r}', 'str:bracket:' + ['none', '()', '[]', '{}', '<>'][sv % 5])
+    want_a, want_fb = r_rot(*a), r_rot(*fb)
+
+    def cmp(m, want, clause, what, tol=TOL_ENTRY):
+        ctx.check(type(m) is cls, 'result_type', f'{what} returned {type(m).__name__}, expected {desc["cls"]}')
+        g = read_mat(m)
+        d = max_diff(g, want)
+        ctx.check(d <= tol, clause, f'{what} differs from the reference rotation by {d:g} (tol {tol:g})\n want={want}\n got ={g}', what=clause)
+
+    cmp(cls.from_angstr(text), want_a, 'from_angstr', f'{desc["cls"]}.from_angstr({text!r})')
+    cmp(cls.from_angstr(text, fb[0], fb[1], fb[2]), want_a, 'from_angstr', f'{desc["cls"]}.from_angstr({text!r}, {fb[0]}, {fb[1]}, {fb[2]})')
+    if (sv // 11) % 2:
+        m3 = cls.from_angstr(bad, fb[0], fb[1], fb[2])
+    else:
+        m3 = cls.from_angstr(bad, pitch=fb[0], yaw=fb[1], roll=fb[2])
+    cmp(m3, want_fb, 'from_angstr_fallback', f'{desc["cls"]}.from_angstr({bad!r}, pitch={fb[0]}, yaw={fb[1]}, roll={fb[2]})')
+    cmp(cls.from_angstr(bad), r_ident(), 'from_angstr_fallback', f'{desc["cls"]}.from_angstr({bad!r})')
+    # partial fall-backs
+    cmp(cls.from_angstr(bad, roll=fb[2]), r_rot(0.0, 0.0, fb[2]), 'from_angstr_fallback', f'{desc["cls"]}.from_angstr({bad!r}, roll={fb[2]})')
+    cmp(cls.from_angstr(bad, yaw=fb[1]), r_rot(0.0, fb[1], 0.0), 'from_angstr_fallback', f'{desc["cls"]}.from_angstr({bad!r}, yaw={fb[1]})')
+    # Angle classes: same inputs; their rotation (harness reference of the reported components) is that of the numbers
+    acls = sm.FrozenAngle if (sv // 2) % 2 else sm.Angle
+    for val, args, raw, what in ((text, (), a, 'parsable'), (text, tuple(fb), a, 'parsable+fallbacks'), (bad, tuple(fb), fb, 'fallbacks')):
+        if val is not None and not isinstance(val, str):
+            continue        # from_str() is documented for strings (and Angles) only
+        ang = acls.from_str(val, *args)
+        ctx.check(type(ang) is acls, 'result_type', f'{acls.__name__}.from_str() returned {type(ang).__name__}')
+        tol = TOL_ENTRY + 1e-16 * max(abs(c) for c in raw)
+        d = max_diff(r_rot(*read_ang(ang)), r_rot(*raw))
+        ctx.check(d <= tol, 'angle_from_str',
+                  f'{acls.__name__}.from_str({val!r}, *{args}) reports {read_ang(ang)}; that rotation differs from the one of {raw} by {d:g} ({what})',
+                  what=what)
+    ang = acls(a[0], a[1], a[2])
+    cmp(cls.from_angstr(ang), r_rot(*read_ang(ang)), 'from_angstr_passthrough', f'{desc["cls"]}.from_angstr({acls.__name__}{tuple(a)})')
+    cmp(cls.from_angstr(ang, fb[0], fb[1], fb[2]), r_rot(*read_ang(ang)), 'from_angstr_passthrough',
+        f'{desc["cls"]}.from_angstr({acls.__name__}{tuple(a)}, fallbacks)')
 
 
 def exec_build(desc, ctx):
@@ -408,6 +473,7 @@ def exec_build(desc, ctx):
     comp3 = cls.from_roll(used[2]) @ cls.from_pitch(used[0]) @ cls.from_yaw(used[1])
     d = max_diff(read_mat(comp3), want)
     ctx.check(d <= TOL_ENTRY, 'axis_order', f'from_roll @ from_pitch @ from_yaw of {used} differs from the reference by {d:g}')
+    check_string_ctors(desc, ctx, cls)
 
 
 # ------------------------------------------------------------------ compose (associativity)
@@ -469,12 +535,19 @@ def exec_compose(desc, ctx):
 # ------------------------------------------------------------------ typemix / operands / inplace (shared driver)
 
 FORMS = ['matmul', 'imatmul']
+# conversion helpers whose result is modified in place before the helper is used again (sub-check ``operands``)
+HELPERS = ['to_matrix(None)', 'to_matrix(Angle)', 'to_matrix(FrozenAngle)', 'to_matrix(tuple)', 'to_matrix(Matrix)',
+           'to_matrix(FrozenMatrix)', 'Matrix()', 'Matrix(Matrix)', 'Matrix(FrozenMatrix)', 'Matrix.from_angle(Angle)',
+           'Matrix.from_angstr(str)', 'Matrix.copy()', 'FrozenMatrix.thaw()']
+# what the body of a ``with x.transform() as mat:`` block does with the matrix it is handed (sub-check ``inplace``)
+BODY_STEPS = ['rmul', 'spin', 'read', 'spin', 'read']
 
 
 def typemix_strategy(tier):
     return st.fixed_dictionaries({
         'left': st.sampled_from(LEFT_KINDS), 'right': st.sampled_from(ROT_KINDS), 'form': st.sampled_from(FORMS),
         'v': vector(), 'ab': triple_pair(),
+        'helper': st.sampled_from(HELPERS), 'body': st.lists(st.sampled_from(BODY_STEPS), max_size=3),
     }).map(_split_ab)
 
 
@@ -564,6 +637,155 @@ def exec_operands(desc, ctx):
                   f'{before_l} -> {after_l}', left=lk, right=rk, form=form)
     if form == 'matmul' and lk in MUTABLE:
         ctx.check(res is not L, 'fresh_result', f'{lk} @ {rk} returned its own left operand', left=lk, right=rk)
+    helper_history(desc, ctx)
+
+
+def helper_history(desc, ctx):
+    """r1 = helper(); modify r1 in place; helper() again: the second result is still the right rotation, the helper's
+    arguments are untouched, and rotating by 'no angles' is still the identity."""
+    import srctools.math as sm
+    name = desc.get('helper')
+    if name is None:
+        return
+    a = desc['a']
+    ctx.label('helper:' + name)
+    A = sm.FrozenAngle(*a) if 'FrozenAngle' in name else sm.Angle(*a)
+    ra = r_rot(*read_ang(A))
+    M = sm.Matrix.from_angle(a[0], a[1], a[2])
+    FM = sm.FrozenMatrix.from_angle(a[0], a[1], a[2])
+    rm = r_rot(*a)
+    text = angle_text(a, 0)
+    shares_argument = False     # to_matrix(Matrix) hands its argument back: modifying the result modifies the argument
+    if name == 'to_matrix(None)':
+        make, ref = (lambda: sm.to_matrix(None)), r_ident()
+    elif name in ('to_matrix(Angle)', 'to_matrix(FrozenAngle)'):
+        make, ref = (lambda: sm.to_matrix(A)), ra
+    elif name == 'to_matrix(tuple)':
+        make, ref = (lambda: sm.to_matrix((a[0], a[1], a[2]))), rm
+    elif name == 'to_matrix(Matrix)':
+        make, ref, shares_argument = (lambda: sm.to_matrix(M)), rm, True
+    elif name == 'to_matrix(FrozenMatrix)':
+        make, ref = (lambda: sm.to_matrix(FM)), rm
+    elif name == 'Matrix()':
+        make, ref = (lambda: sm.Matrix()), r_ident()
+    elif name == 'Matrix(Matrix)':
+        make, ref = (lambda: sm.Matrix(M)), rm
+    elif name == 'Matrix(FrozenMatrix)':
+        make, ref = (lambda: sm.Matrix(FM)), rm
+    elif name == 'Matrix.from_angle(Angle)':
+        make, ref = (lambda: sm.Matrix.from_angle(A)), ra
+    elif name == 'Matrix.from_angstr(str)':
+        make, ref = (lambda: sm.Matrix.from_angstr(text)), rm
+    elif name == 'Matrix.copy()':
+        make, ref = (lambda: M.copy()), rm
+    elif name == 'FrozenMatrix.thaw()':
+        make, ref = (lambda: FM.thaw()), rm
+    else:
+        raise AssertionError(name)
+    watched = [(A, 'Angle' if type(A).__name__ == 'Angle' else 'FrozenAngle'), (M, 'Matrix'), (FM, 'FrozenMatrix')]
+    before = [observe(o, k) for o, k in watched]
+    R, rr = mk_rot(desc['right'], desc['b'])
+    r1 = make()
+    d = max_diff(read_mat(r1), ref)
+    ctx.check(d <= TOL_ENTRY, 'helper_value', f'{name} differs from the reference rotation by {d:g}', helper=name)
+    if not shares_argument:
+        if desc['form'] == 'imatmul' or type(r1) is not sm.Matrix:
+            r1x = operator.imatmul(r1, R)
+            want1 = r_mul(ref, rr)
+        else:
+            r1[0, 1] = 0.25
+            r1[2, 2] = -3.0
+            r1x = r1
+            want1 = [row[:] for row in ref]
+            want1[0][1], want1[2][2] = 0.25, -3.0
+        d = max_diff(read_mat(r1x), want1)
+        ctx.check(d <= TOL_ENTRY, 'helper_value', f'result of {name}, modified in place, differs from the reference by {d:g}', helper=name)
+    r2 = make()
+    g2 = read_mat(r2)
+    d = max_diff(g2, ref)
+    ctx.check(d <= TOL_ENTRY, 'helper_reuse',
+              f'{name} was called, its result modified in place, and {name} called again: the second result differs from the '
+              f'reference rotation by {d:g}\n want={ref}\n got ={g2}', helper=name)
+    after = [observe(o, k) for o, k in watched]
+    ctx.check(after == before, 'helper_arguments', f'{name} + in-place modification of its result changed an argument: {before} -> {after}',
+              helper=name)
+    # "no rotation" stays no rotation, whatever was done to earlier results: localise() without angles only translates
+    v = [float(c) for c in desc['v']]
+    org = [v[1] * 0.5 + 1.0, -v[2], v[0] + 2.0]
+    for variant in ('omitted', 'None'):
+        vec = sm.Vec(v[0], v[1], v[2])
+        if variant == 'omitted':
+            vec.localise(sm.Vec(org[0], org[1], org[2]))
+        else:
+            vec.localise((org[0], org[1], org[2]), None)
+        got = read_vec(vec)
+        want = [v[i] + org[i] for i in range(3)]
+        d = max(abs(got[i] - want[i]) for i in range(3))
+        ctx.check(d <= TOL_ENTRY * vnorm(want), 'localise_no_angles',
+                  f'Vec{tuple(v)}.localise({org}) with angles {variant} gave {got}, expected the plain translation {want}', helper=name)
+    ident = read_mat(sm.to_matrix(None))
+    ctx.check(ident == r_ident(), 'identity_helper', f'to_matrix(None) is {ident}', helper=name)
+
+
+def transform_block(desc, ctx, lk):
+    """``with x.transform() as mat:`` for the mutable x: the matrix handed out is the rotation x stands for (identity for a
+    Vec), the body may read it, rotate by it, right-multiply it or overwrite its entries; on exit x holds the result."""
+    import srctools.math as sm
+    body = desc.get('body')
+    if body is None or lk not in ('Vec', 'Angle'):
+        return
+    R, rr = mk_rot(desc['right'], desc['b'])
+    deg = desc['b'][1]
+    probe = [1.0, -2.0, 0.5]
+    if lk == 'Angle':
+        obj = sm.Angle(*desc['a'])
+        ref = r_rot(*read_ang(obj))
+    else:
+        v0 = [float(c) for c in desc['v']]
+        obj = sm.Vec(v0[0], v0[1], v0[2])
+        ref = r_ident()
+    ctx.label('transform:' + lk)
+
+    def same(m, when):
+        g = read_mat(m)
+        d = max_diff(g, ref)
+        ctx.check(d <= TOL_ENTRY, 'transform_matrix',
+                  f'{lk}.transform(): the matrix {when} differs from the reference by {d:g}\n want={ref}\n got ={g}', left=lk, when=when)
+
+    with obj.transform() as m:
+        ctx.check(type(m) is sm.Matrix, 'result_type', f'{lk}.transform() yielded a {type(m).__name__}')
+        same(m, 'handed to the block')
+        for step in body:
+            ctx.label('transform_body:' + step)
+            if step == 'rmul':
+                m @= R
+                ref = r_mul(ref, rr)
+            elif step == 'spin':
+                # turn about the world Z axis *before* the current rotation: new = Rz(deg) . current, written entry by entry
+                new = r_mul(r_yaw(deg), read_mat(m))
+                for i in range(3):
+                    for j in range(3):
+                        m[i, j] = new[i][j]
+                ref = r_mul(r_yaw(deg), ref)
+            else:
+                got = read_vec(sm.Vec(probe[0], probe[1], probe[2]) @ m)
+                want = r_vec(probe, ref)
+                d = max(abs(got[i] - want[i]) for i in range(3))
+                ctx.check(d <= TOL_ENTRY * vnorm(probe), 'transform_matrix',
+                          f'{lk}.transform(): v @ mat inside the block gave {got}, the reference gives {want}', left=lk, when='read')
+            same(m, 'after body step ' + step)
+    if lk == 'Angle':
+        got = r_rot(*read_ang(obj))
+        tol = rt_tol(horiz(ref))
+        d = max_diff(got, ref)
+        ctx.check(d <= tol, 'transform_result',
+                  f'Angle{tuple(desc["a"])}.transform() with body {body}: the angle afterwards {read_ang(obj)} differs from the '
+                  f'reference rotation by {d:g} (tol {tol:g})', left=lk)
+    else:
+        got, want = read_vec(obj), r_vec(v0, ref)
+        d = max(abs(got[i] - want[i]) for i in range(3))
+        ctx.check(d <= TOL_ENTRY * vnorm(v0), 'transform_result',
+                  f'Vec{tuple(v0)}.transform() with body {body}: the vector afterwards {got} differs from the reference {want} by {d:g}', left=lk)
 
 
 def exec_inplace(desc, ctx):
@@ -604,6 +826,7 @@ def exec_inplace(desc, ctx):
         ctx.check(max_diff(gy, want) <= tol, 'self_product_inplace',
                   f'x @= x with x the same {lk}{desc["a"]} differs from the rotation applied twice by {max_diff(gy, want):g}', left=lk)
         ctx.label('alias:x@=x')
+    transform_block(desc, ctx, lk)
 
 
 # ------------------------------------------------------------------ rotation sources for roundtrip / inverse
@@ -733,13 +956,16 @@ _POOLS = ('grid15', 'pole_exact', 'pole<=1e-3', 'pole_threshold_zone', 'free_lar
 
 SUBCHECKS = [
     Sub('build', exec_build, strategy=build_strategy, enumerate=build_enumerate, quick=10000, thorough=240000, floor=500,
-        must_hit=tuple('a:' + p for p in _POOLS) + tuple('form:' + f for f in BUILD_FORMS)),
+        must_hit=tuple('a:' + p for p in _POOLS) + tuple('form:' + f for f in BUILD_FORMS)
+        + tuple(f'str:bad:{b!r}' for b in BAD_ANGLE_TEXTS)),
     Sub('compose', exec_compose, strategy=compose_strategy, quick=10000, thorough=320000, floor=500,
         must_hit=('gimbal_product',) + tuple(f'{v}@{a}@{b}' for v in VEC_KINDS for a in ROT_KINDS for b in ROT_KINDS)),
     Sub('typemix', exec_typemix, strategy=typemix_strategy, quick=10000, thorough=320000, floor=500,
         must_hit=_PAIR_FORMS + ('gimbal_result',)),
-    Sub('operands', exec_operands, strategy=typemix_strategy, quick=6000, thorough=160000, floor=300, must_hit=_PAIR_FORMS),
-    Sub('inplace', exec_inplace, strategy=typemix_strategy, quick=6000, thorough=160000, floor=300, must_hit=_PAIRS),
+    Sub('operands', exec_operands, strategy=typemix_strategy, quick=6000, thorough=160000, floor=300,
+        must_hit=_PAIR_FORMS + tuple('helper:' + h for h in HELPERS)),
+    Sub('inplace', exec_inplace, strategy=typemix_strategy, quick=6000, thorough=160000, floor=300,
+        must_hit=_PAIRS + ('transform:Vec', 'transform:Angle', 'transform_body:rmul', 'transform_body:spin', 'transform_body:read')),
     Sub('roundtrip', exec_roundtrip, strategy=source_strategy, enumerate=source_enumerate, quick=10000, thorough=320000, floor=500,
         must_hit=tuple('src:' + s for s in SOURCES) + ('gimbal_h<1e-15', 'gimbal_h<1e-9', 'gimbal_h<=1e-3', 'near_threshold_h<=1e-2')
         + tuple('basis:' + b for b in BASIS_AXES)),
